@@ -26,13 +26,15 @@ EMBED = {
 SCHEMA_TYPE = {
     "int": '"int"', "int2": '"int"', "u64": '"u64"', "u64s": '"u64"', "float": '"float"', "floati": '"float"',
     "string": '"string"', "string2": '"string"', "enum": '["v0", "v1", "v2", "v3"]', "bool": '"bool"',
-    "datetime": '"datetime"',
+    "datetime": '"datetime"', "numid": '"int"', "numid_opt": '"int | null"',
 }
-ORDERED = {"int", "int2", "u64", "u64s", "float", "floati", "string", "string2", "datetime"}
+ORDERED = {"numid", "numid_opt", "int", "int2", "u64", "u64s", "float", "floati", "string", "string2", "datetime"}
 
 
 def lit(kind, v):
     """query literal text for abstract value v of a field kind"""
+    if kind.startswith("numid"):
+        return str(v)
     x = EMBED[kind][v]
     if kind in ("string", "string2", "enum"):
         return json.dumps(x, ensure_ascii=False)
@@ -47,6 +49,8 @@ def lit(kind, v):
 
 
 def json_val(kind, v):
+    if kind.startswith("numid"):
+        return None if (v == NULL and kind.endswith("_opt")) else v
     if v == NULL:
         return None
     return EMBED[kind][v]
@@ -168,7 +172,7 @@ def define_cmd(kinds, etype="ev", optional=()):
     parts = ['k: "int"']
     for n, kd in kinds.items():
         ty = SCHEMA_TYPE[kd]
-        if n in optional:
+        if n in optional and not kd.endswith("_opt"):
             ty = f'"{ty.strip(chr(34))} | null"' if ty.startswith('"') else ty
         parts.append(f"{n}: {ty}")
     return f"DEFINE {etype} FIELDS {{ {', '.join(parts)} }}"
@@ -266,3 +270,30 @@ def random_expr(rnd, kinds, depth, probes=(0, 1, 2, 3, 4), allow=None):
         return {"tag": "not", "e": random_expr(rnd, kinds, depth - 1, probes, allow)}
     tag = "and" if r < 0.65 else "or"
     return {"tag": tag, "l": random_expr(rnd, kinds, depth - 1, probes, allow), "r": random_expr(rnd, kinds, depth - 1, probes, allow)}
+
+
+# ---- time embedding around calendar boundaries (UTC) and an independent bucket routine
+T_DAY = 1700006400        # 2023-11-15T00:00:00Z (Wednesday)
+T_WEEK = 1700438400       # 2023-11-20T00:00:00Z (Monday)
+T_MONTH = 1701388800      # 2023-12-01T00:00:00Z
+T_YEAR = 1704067200       # 2024-01-01T00:00:00Z
+TIME_EMBED = {10: T_DAY - 1, 20: T_DAY, 30: T_DAY + 3599, 40: T_DAY + 3600, 50: T_WEEK - 1, 60: T_WEEK,
+              70: T_MONTH - 1, 80: T_MONTH, 90: T_YEAR - 1, 95: T_YEAR}
+
+
+def bucket_start(ts, gran, week_start="Mon"):
+    import datetime as _dt
+    d = _dt.datetime.fromtimestamp(ts, _dt.timezone.utc)
+    if gran == "hour":
+        d = d.replace(minute=0, second=0)
+    elif gran == "day":
+        d = d.replace(hour=0, minute=0, second=0)
+    elif gran == "week":
+        d = d.replace(hour=0, minute=0, second=0)
+        wd = d.weekday() if week_start == "Mon" else (d.weekday() + 1) % 7
+        d = d - _dt.timedelta(days=wd)
+    elif gran == "month":
+        d = d.replace(day=1, hour=0, minute=0, second=0)
+    elif gran == "year":
+        d = d.replace(month=1, day=1, hour=0, minute=0, second=0)
+    return int(d.timestamp())
